@@ -11,6 +11,7 @@ import (
 	"testing"
 	"time"
 
+	"github.com/google/uuid"
 	"github.com/nats-io/nats.go"
 	"github.com/simpleiot/simpleiot/api"
 	"github.com/simpleiot/simpleiot/client"
@@ -180,6 +181,7 @@ func TestCrashChild(t *testing.T) {
 	}
 	runtime.LockOSThread()
 	log.SetOutput(io.Discard)
+	uuid.SetRand(&seedReader{state: mix(seed, 4242)}) // same ids, same page layout, same system calls in every run of a history
 	ops := crashWorkload(seed, nOps)
 	st, hc, _, err := inlineStore(dir)
 	if err != nil {
